@@ -191,15 +191,45 @@ def lifetimes_part(ctx, maxlen):
     ctx.sample({"program": named[len(named) // 2][2], "rust": named[len(named) // 2][1].split("fn main")[1]})
 
 
+POISON_I64 = 0x7F7F7F7F7F7F7F7F
+POISON_U32 = 0x7F7F7F7F
+
+
+def memory_symptom(m):
+    """C16 is about memory: of the replay mismatches only those that show the hook's poison (an unwritten scratch slot was read: a
+    timestamp of 0x7F7F..., a value of 3.39e38 or something computed from it), a panic (index out of range, failed borrow) or an
+    out-of-range accessor are reported under C16; a merely wrong sum or state is the business of C02 / C08 / C09."""
+    if "out of range" in str(m.get("what", "")) or "panick" in str(m.get("what", "")) or "borrow" in str(m.get("what", "")):
+        return True
+    def walk(v):
+        if isinstance(v, bool):
+            return False
+        if isinstance(v, int):
+            return v in (POISON_I64, POISON_U32)
+        if isinstance(v, float):
+            return abs(v) >= 1e36 or v != v
+        if v is None:
+            return True                      # serde_json writes NaN / infinity as null
+        if isinstance(v, str):
+            return "panic" in v or "OUT-OF-RANGE" in v or "already" in v
+        if isinstance(v, dict):
+            return any(walk(x) for x in v.values())
+        if isinstance(v, list):
+            return any(walk(x) for x in v)
+        return False
+    return walk(m.get("got"))
+
+
 @register("C16")
 def c16(ctx):
     q = ctx.tier == "quick"
     # (a) scratch slots: n-ary sum / product for arities 1..8, every present / absent / error pattern (slot model checked by TLC, poisoned scratch arrays in the code)
-    p_pure.run_combinators(ctx, [("nary", p_pure.comb_cfg(["SumN", "ProductN"], 8, False)), ("nary_wide", p_pure.comb_cfg(["SumN", "ProductN"], 4 if q else 5, True))])
+    p_pure.run_combinators(ctx, [("nary", p_pure.comb_cfg(["SumN", "ProductN"], 8, False)), ("nary_wide", p_pure.comb_cfg(["SumN", "ProductN"], 4 if q else 5, True))],
+                           only_if=memory_symptom)
     # terminal state read: the four own / partner presence combinations; axle constructor sizes 0..8
     jobs = [("term2", p_devices.dev_cfg("matchdata", [], 1, nt=2), 1, None),
             ("axles", p_devices.dev_cfg("single", ["axlebig"], 2), 4, None)]
-    p_devices.run_devices(ctx, jobs, 0, observe="all")
+    p_devices.run_devices(ctx, jobs, 0, observe="all", only_if=memory_symptom)
     # (b) lifetimes
     lifetimes_part(ctx, 3 if q else 4)
     # a Reference must not outlive its target either: the handle behaviours of Reference.tla (clone / to_dyn / drop), drop counter inspected
